@@ -401,16 +401,25 @@ theorem C23_permissions_flags_of_word (w : Nat) (i : Nat) (hi : i ∈ permBitIdx
 example : permFromFlags [true, true, true, true, true, true, true, true] = permAll := by decide
 example : permFromFlags [false, false, false, false, false, false, false, false] = permNew := by decide
 
-/-! ## Findings on the unchanged tree
+/-! ## `validate_owner_password` (R2–R4)
 
-### C23-F2 — `validate_owner_password` (R2–R4) rejects the authentic owner password
+### With the /U entry: Algorithm 7 exactly (C23-F2 repaired)
 
-FULL (what the function's contract and Algorithm 7 say):
-  ∀ rev n opw upw, validateOwnerPasswordLegacy rev n opw (alg3 rev n opw upw) = true
+FULL (the function's contract and Algorithm 7), now a theorem: for every revision, key length,
+owner / user password, /P and /ID
 
-It holds when the padded user password survives "cut at the first `(`, decode lossily, pad
-again" (`_partial`), and fails e.g. for the empty user password (`_witness`): the recovered
-bytes are then the 32 padding bytes themselves, which start with `(` = 0x28 and are not UTF-8.
+  validateOwnerPassword rev n opw (alg3 rev n opw upw) p (some id) (some (computeU …)) = true
+
+and, more generally, the verdict IS Algorithm 7's on every /O of at least 32 bytes and every /U
+(`C23_owner_validation_is_alg7`).
+
+### Without the /U entry (and, before the repair, always): the plausibility check
+
+`validateOwnerPasswordLegacy` accepts exactly when the padded user password survives "cut at the
+first `(`, decode lossily, pad again" (`C23_legacy_owner_validation_iff`); it rejects the
+authentic owner password e.g. when the user password is empty (`_witness`): the recovered bytes
+are then the 32 padding bytes themselves, which start with `(` = 0x28 and are not UTF-8. These
+statements are the regression the check must keep catching.
 -/
 
 theorem rc4Down20_eq (k d : Bytes) : rc4Down20 k d = rc4 k (rc4Unchain k d) := by
@@ -474,6 +483,82 @@ theorem C23_witness_legacy_owner_rejects_paren (rev n : Nat) (opw : Bytes) :
     ¬ (validateOwnerPasswordLegacy rev n opw (alg3 rev n opw [0x61, 0x28, 0x62]) = true) := by
   rw [C23_legacy_owner_validation_iff]
   decide
+
+theorem alg7recover_length (rev n : Nat) (opw o : Bytes) (ho : 32 ≤ o.length) :
+    (alg7recover rev n opw o).length = 32 := by
+  have h32 : (o.take 32).length = 32 := by simp; omega
+  have hun : ∀ k d, (rc4Unchain k d).length = d.length := by
+    intro k d
+    unfold rc4Unchain
+    generalize List.range 19 = l
+    induction l with
+    | nil => rfl
+    | cons i rest ih => simp only [List.foldr_cons]; rw [rc4_length, ih]
+  unfold alg7recover
+  simp only
+  split
+  · rw [rc4_length, hun, h32]
+  · rw [rc4_length, h32]
+
+theorem keyFromPadded_of_padded (rev n : Nat) (padded o id : Bytes) (p : Nat) (hl : padded.length = 32) :
+    computeKeyFromPadded rev n padded o p (some id) true = alg2 rev n padded o p id true := by
+  have hp : padPassword padded = padded := by
+    unfold padPassword; exact List.take_left' hl
+  unfold computeKeyFromPadded alg2
+  simp [hp]
+
+/-- **C23-F2 repaired.** With the /U entry, `validate_owner_password` (R2–R4) IS Algorithm 7:
+for every revision ≥ 2, key length, owner password, /O of at least 32 bytes, /U, /P and /ID
+it accepts exactly when Algorithm 7 authenticates. -/
+theorem C23_owner_validation_is_alg7 (rev n : Nat) (opw o u id : Bytes) (p : Nat) (hr : 2 ≤ rev)
+    (ho : 32 ≤ o.length) :
+    validateOwnerPassword rev n opw o p (some id) (some u) = (alg7 rev n opw o u p id true).isSome := by
+  have hdec : (if rev ≥ 3 then rc4Down20 (ownerRc4Key rev n opw) (o.take 32)
+      else rc4 (ownerRc4Key rev n opw) (o.take 32)) = alg7recover rev n opw o := by
+    unfold alg7recover
+    simp only [ownerRc4Key, rc4Down20_eq]
+  have hl := alg7recover_length rev n opw o ho
+  have hk := keyFromPadded_of_padded rev n _ o id p hl
+  have hpad : padPassword (alg7recover rev n opw o) = alg7recover rev n opw o := by
+    unfold padPassword; exact List.take_left' hl
+  simp only [validateOwnerPassword, hdec, computeUserHashFromPadded, hk, alg7, alg6]
+  generalize alg2 rev n (alg7recover rev n opw o) o p id true = key
+  by_cases h2 : rev = 2
+  · subst h2
+    have hl4 : (rc4 key pwPadding).length = 32 := by simp [rc4_length, pwPadding]
+    simp only [show ¬ (2 ≥ 3) by omega, if_true, if_false, alg4, hl4, Option.getD_some]
+    rw [List.take_of_length_le (Nat.le_of_eq hl4)]
+    by_cases hu : u.length ≥ 32 <;> by_cases he : rc4 key pwPadding = u.take 32 <;> simp [hu, he]
+  · have h3 : rev ≥ 3 := by omega
+    have hc := alg5core_length key id
+    simp only [h2, h3, if_false, if_true, Option.getD_some]
+    have e : rc4Chain key (rc4 key (md5 (pwPadding ++ id))) = alg5core key id := rfl
+    rw [e, List.take_left' hc]
+    simp only [List.length_append, hc, List.length_replicate]
+    by_cases hu : u.length ≥ 16 <;> by_cases he : alg5core key id = u.take 16 <;> simp [hu, he]
+
+example : validateOwnerPassword 3 16 [0x6F] (alg3 3 16 [0x6F] []) 0xFFFFFFFC (some [1, 2])
+    (some (computeU 3 16 [] (alg3 3 16 [0x6F] []) 0xFFFFFFFC [1, 2] true)) =
+    (alg7 3 16 [0x6F] (alg3 3 16 [0x6F] []) (computeU 3 16 [] (alg3 3 16 [0x6F] []) 0xFFFFFFFC [1, 2] true)
+      0xFFFFFFFC [1, 2] true).isSome :=
+  C23_owner_validation_is_alg7 3 16 _ _ _ _ _ (by omega) (by rw [alg3_length]; omega)
+
+/-- FULL statement of the former finding: the authentic owner password is accepted — for every
+revision ≥ 2, key length, owner password, user password (empty, with `(`, of any length and
+encoding), /P and /ID. -/
+theorem C23_owner_validation_accepts_authentic (rev n : Nat) (hr : 2 ≤ rev) (opw upw id : Bytes) (p : Nat) :
+    validateOwnerPassword rev n opw (alg3 rev n opw upw) p (some id)
+      (some (computeU rev n upw (alg3 rev n opw upw) p id true)) = true := by
+  rw [C23_owner_validation_is_alg7 rev n opw _ _ id p hr (by rw [alg3_length]; omega), C23_alg7_accepts]
+  rfl
+
+/-- the three shapes the unrepaired function refused -/
+example : validateOwnerPassword 2 5 [0x6F] (alg3 2 5 [0x6F] []) 0 (some [])
+    (some (computeU 2 5 [] (alg3 2 5 [0x6F] []) 0 [] true)) = true :=
+  C23_owner_validation_accepts_authentic 2 5 (by omega) _ _ _ _
+example : validateOwnerPassword 4 16 [0x6F] (alg3 4 16 [0x6F] [0x61, 0x28, 0x62]) 7 (some [9])
+    (some (computeU 4 16 [0x61, 0x28, 0x62] (alg3 4 16 [0x6F] [0x61, 0x28, 0x62]) 7 [9] true)) = true :=
+  C23_owner_validation_accepts_authentic 4 16 (by omega) _ _ _ _
 
 /-! ### C23-F1 — passwords reach Algorithms 2/3 as UTF-8, the standard says PDFDocEncoding
 
